@@ -26,7 +26,7 @@ MANIFEST = {
             "stacks (which dictionaries are merged in which order), PayloadDict.",
 }
 ASSUMPTIONS = [
-    "spec step per chunk: if '*' is negated the set is cleared; every negation ending in '_*' removes the flags starting with its prefix; then the negations are removed and the additions added",
+    "spec step per chunk: if '*' is negated the set is cleared; every negation PREFIX_* removes the flags starting with 'PREFIX_' (the glob without its star: X_* clears X_a and X_, not Xy); then the negations are removed and the additions added",
     "ChunkedDataDict is not mutated after optimize() without an intervening clone() (optimize leaves tuples as values)",
 ]
 
@@ -37,7 +37,7 @@ def wild(t):
 
 def prefix_set(t):
     f = z3.String("f!pref")
-    return z3.Lambda([f], z3.PrefixOf(z3.SubString(t, 0, z3.Length(t) - 2), f))
+    return z3.Lambda([f], z3.PrefixOf(z3.SubString(t, 0, z3.Length(t) - 1), f))
 
 
 def t_chunked(ex):
@@ -125,7 +125,7 @@ def t_step_meaning(ex):
     inR = z3.IsMember(x.t, R)
 
     def covered(n):
-        return z3.And(wild(n), z3.PrefixOf(z3.SubString(n, 0, z3.Length(n) - 2), x.t))
+        return z3.And(wild(n), z3.PrefixOf(z3.SubString(n, 0, z3.Length(n) - 1), x.t))
     star = z3.Or(n0.t == z3.StringVal("*"), n1.t == z3.StringVal("*"))
     want = z3.Or(z3.IsMember(x.t, pos.t),
                  z3.And(z3.IsMember(x.t, S.t), z3.Not(star), x.t != n0.t, x.t != n1.t, z3.Not(covered(n0.t)), z3.Not(covered(n1.t))))
@@ -144,7 +144,7 @@ def ref_step(s, neg, pos):
         s.clear()
     for n in neg:
         if n.endswith("_*"):
-            s = {f for f in s if not f.startswith(n[:-2])}
+            s = {f for f in s if not f.startswith(n[:-1])}
     s -= set(neg)
     s |= set(pos)
     return s
@@ -306,11 +306,139 @@ def enum_histories(seed):
             "cases": cases, "failures": fails}
 
 
+# ---------------------------------------------------------------- package.use lines through the real domain code ----
+LINE_TOKENS = ["a", "-a", "b", "-*", "X:", "Y:", "p", "-p", "x_p", "-x_p", "xq", "-xq"]  # a written-out -x_* is not a valid token (the line is rejected); X: -* is the spelling
+LINE_HEADS = ["*/*", "a/b", "=a/b-2"]
+
+
+def ref_line(s, tokens):
+    """a configuration line read token by token, in the order written (the statement's rule applied at token granularity)"""
+    s = set(s)
+    prefix = None
+    for t in tokens:
+        if t.endswith(":"):
+            prefix = t[:-1].lower() + "_"
+            continue
+        if prefix is None:
+            if t == "-*":
+                s.clear()
+            elif t.startswith("-") and t.endswith("_*"):
+                s = {f for f in s if not f.startswith(t[1:-1])}
+            elif t.startswith("-"):
+                s.discard(t[1:])
+            else:
+                s.add(t)
+        else:
+            if t == "-*":
+                s = {f for f in s if not f.startswith(prefix)}
+            elif t.startswith("-"):
+                s.discard(prefix + t[1:])
+            else:
+                s.add(prefix + t)
+    return s
+
+
+def _expanded(tokens):
+    prefix, out = None, []
+    for t in tokens:
+        if t.endswith(":"):
+            prefix = t[:-1].lower() + "_"
+        elif prefix is None:
+            out.append(t)
+        elif t == "-*":
+            out.append(f"-{prefix}*")
+        else:
+            out.append(("-" + prefix + t[1:]) if t.startswith("-") else prefix + t)
+    return out
+
+
+def order_matters_within_line(tokens):
+    """a later token of the same line undoes an earlier one other than through -* / 'FOO: ... -*' (which the splitter handles):
+    the same flag with both polarities, or a written-out -foo_* after a foo_ flag it covers"""
+    e = _expanded(tokens)
+    for i, t in enumerate(e):
+        for u in e[i + 1:]:
+            if t.lstrip("-") == u.lstrip("-") and t.startswith("-") != u.startswith("-") and not t.endswith("*"):
+                return True
+            if not t.startswith("-") and u.startswith("-") and u.endswith("_*") and t.startswith(u[1:-1]):
+                return True
+    return False
+
+
+def enum_lines(seed):
+    """package.use lines -> package_use_splitter -> domain.pkg_use -> domain.enabled_use -> pull_data, all real code, against token-by-token reading"""
+    import os
+    import shutil
+    import tempfile
+    import types
+    from pkgcore.ebuild.domain import domain
+    from pkgcore.ebuild.misc import ChunkedDataDict, chunked_data
+    from pkgcore.ebuild.atom import atom
+    thorough = os.environ.get("VERIF_TIER") == "thorough"
+    pkgs = _pkgs()
+    f_pkg_use, f_enabled = domain.__dict__["pkg_use"].function, domain.__dict__["enabled_use"].function
+    scratch = tempfile.mkdtemp(prefix="c11-", dir=os.environ.get("PYVC_SCRATCH", "/var/tmp"))
+    fails, cases = [], 0
+    profile = ChunkedDataDict()
+    profile.add_bare_global((), ("x_p", "y_p"))
+    profile.update_from_stream([chunked_data(atom("a/b"), ("b",), ("p",))])
+    profile.freeze()
+    prof_hist = [(None, (), ("x_p", "y_p")), ("a/b", ("b",), ("p",))]
+    glob = ("a", "b", "xq", "-p")
+
+    def run(lines):
+        nonlocal cases
+        with open(os.path.join(scratch, "package.use"), "w") as f:
+            f.write("".join(" ".join([h] + list(t)) + "\n" for h, t in lines))
+        o = types.SimpleNamespace(config_dir=scratch, root="/", use=glob, profile=types.SimpleNamespace(pkg_use=profile))
+        o.pkg_use = f_pkg_use(o)
+        use = f_enabled(o)
+        for pkg in pkgs:
+            cases += 1
+            got = set(use.pull_data(pkg))
+            want = ref_line(set(), glob)
+            for k, neg, pos in prof_hist:
+                if k is None or atom(k).match(pkg):
+                    want = ref_step(want, neg, pos)
+            for h, t in lines:
+                if h == "*/*" or atom(h).match(pkg):
+                    want = ref_line(want, t)
+            listed_kind = any(order_matters_within_line(t) for h, t in lines)
+            if got != want and sum(1 for f in fails if f["model"]["order_matters_within_a_line"] == listed_kind) < 3:
+                fails.append({"model": {"package.use": [" ".join([h] + list(t)) for h, t in lines], "package": pkg.cpvstr, "global_USE": list(glob),
+                                        "order_matters_within_a_line": any(order_matters_within_line(t) for h, t in lines)},
+                              "detail": f"package.use {[' '.join([h] + list(t)) for h, t in lines]} on top of USE={' '.join(glob)} and the profile gives {sorted(got)} for {pkg.cpvstr}; "
+                                        f"reading the entries token by token in order gives {sorted(want)}"})
+    try:
+        for n in (1, 2, 3):
+            for t in itertools.product(LINE_TOKENS, repeat=n):
+                for h in (LINE_HEADS if n < 3 or thorough else LINE_HEADS[:2]):
+                    run([(h, t)])
+        r = random.Random(seed)
+        for _ in range(6000 if thorough else 1500):
+            lines = [(r.choice(LINE_HEADS), tuple(r.choice(LINE_TOKENS) for _ in range(r.choice((1, 2, 3, 4, 5))))) for _ in range(r.choice((2, 3)))]
+            run(lines)
+    finally:
+        shutil.rmtree(scratch, ignore_errors=True)
+    # keep one representative per kind so that an unlisted failure is never crowded out by listed ones
+    listed = [f for f in fails if f["model"]["order_matters_within_a_line"]]
+    other = [f for f in fails if not f["model"]["order_matters_within_a_line"]]
+    return {"name": "C11.package_use_lines.bounded_enumeration",
+            "bound": f"every package.use line of 1..3 tokens out of {LINE_TOKENS} for {len(LINE_HEADS)} targets, plus {6000 if thorough else 1500} seeded files of 2..3 lines of 1..5 tokens, "
+                     "read by the real package_use_splitter / domain.pkg_use / domain.enabled_use on top of a global USE and a two-entry profile, pulled for 3 packages",
+            "cases": cases, "failures": other[:3] + listed[:1]}
+
+
+WITNESSES = {"order_matters_within_a_line": lambda m: bool(m.get("order_matters_within_a_line"))}
+
+
 def tasks():
     return [
         Task("C11.incremental_chunked", t_chunked, [(FILE, "incremental_chunked")], fallback={"unroll": 2}, enumerate=enum_chunked),
         Task("C11.step", t_step_meaning, []),
         Task("C11.ChunkedDataDict", None, [(FILE, "ChunkedDataDict.render_pkg"), (FILE, "_build_cp_atom_payload")], enumerate=enum_histories),
+        Task("C11.package_use_lines", None, [("src/pkgcore/ebuild/domain.py", "package_use_splitter"), ("src/pkgcore/ebuild/domain.py", "domain.pkg_use"),
+                                             ("src/pkgcore/ebuild/domain.py", "domain.enabled_use")], enumerate=enum_lines),
     ]
 
 
